@@ -68,6 +68,21 @@ mutual
        | _ => false) || unlMs r
 end
 
+/- a type none of whose parts, at any depth, is a dynamic or greedy array: its encodings all
+   have one length ("fixed size on wire") -/
+mutual
+  def fixedTy : Ty → Bool
+    | .struct _ ms => fixedMs ms
+    | .union _ arms => fixedArms arms
+    | _ => true
+  def fixedMs : List Member → Bool
+    | [] => true
+    | .mk _ t k :: r => k.isStatic && fixedTy t && fixedMs r
+  def fixedArms : List Arm → Bool
+    | [] => true
+    | .mk _ _ t :: r => fixedTy t && fixedArms r
+end
+
 /-- a member after which a new block starts ("blocks which end with dynamic fields") -/
 def endsBlock (m : Member) : Bool :=
   match m.kind with
